@@ -26,6 +26,8 @@ import (
 	"os/exec"
 	"path/filepath"
 	"strings"
+	"sync"
+	"syscall"
 	"testing"
 	"time"
 
@@ -71,6 +73,10 @@ type Doc struct {
 	Property  string  `json:"property"`
 	Signature string  `json:"signature,omitempty"`
 	Case      Case    `json:"case"`
+	// Cases (optional, replay files only): further cases that belong to the same
+	// document; TestReplay executes all of them side by side and fails with the
+	// signature of the first one (in order: Case, Cases...) that fails.
+	Cases []Case `json:"cases,omitempty"`
 	Message   string  `json:"message,omitempty"`
 	Result    *Result `json:"child_result,omitempty"`
 	Note      string  `json:"note,omitempty"`
@@ -111,16 +117,19 @@ func runChild(c *Case) *Result {
 		return &Result{Verdict: "infra", Msg: err.Error()}
 	}
 	cmd := exec.Command(os.Args[0], "-test.run", "^TestChild$", "-test.timeout", "0")
-	cmd.Env = append(os.Environ(), "VERIF_CHILD_SPEC="+sp)
+	cmd.Env = append(os.Environ(), "VERIF_CHILD_SPEC="+sp, fmt.Sprintf("VERIF_CHILD_CAP_S=%d", int(capFor(c).Seconds())+20))
 	var stderr bytes.Buffer
 	cmd.Stderr = &stderr
 	cmd.Stdout = nil
+	// the child dies with this process (driver timeout, kill) and, independently,
+	// ends itself after the cap
+	cmd.SysProcAttr = &syscall.SysProcAttr{Pdeathsig: syscall.SIGKILL}
 	if err := cmd.Start(); err != nil {
 		return &Result{Verdict: "infra", Msg: "start child: " + err.Error()}
 	}
 	done := make(chan error, 1)
 	go func() { done <- cmd.Wait() }()
-	limit := convBound(c) + 30*time.Second /*drop clause*/ + 120*time.Second /*workload on a loaded machine*/ + 120*time.Second
+	limit := capFor(c)
 	var werr error
 	select {
 	case werr = <-done:
@@ -233,26 +242,59 @@ func TestReplay(t *testing.T) {
 	if err := json.Unmarshal(b, &d); err != nil {
 		t.Fatal(err)
 	}
-	n := 3
+	const n = 3
+	cases := append([]Case{d.Case}, d.Cases...)
+	// all executions run side by side (every child owns its engines, directories
+	// and ports); the verdict of one execution depends on the schedule, so each
+	// case is executed n times and the replay fails if any execution fails
+	results := make([][]*Result, len(cases))
+	var wg sync.WaitGroup
+	for ci := range cases {
+		results[ci] = make([]*Result, n)
+		for i := 0; i < n; i++ {
+			wg.Add(1)
+			go func(ci, i int) {
+				defer wg.Done()
+				results[ci][i] = runChild(&cases[ci])
+			}(ci, i)
+		}
+	}
+	wg.Wait()
 	var msgs []string
-	for i := 0; i < n; i++ {
-		r := runChild(&d.Case)
-		if r.Verdict == "infra" {
-			t.Fatalf("infrastructure: %s", r.Msg)
+	for ci := range cases {
+		for i, r := range results[ci] {
+			if r.Verdict == "infra" {
+				t.Fatalf("infrastructure: %s", r.Msg)
+			}
+			if os.Getenv("VERIF_VERBOSE") != "" {
+				r2 := *r
+				r2.Msg = clip(r2.Msg, 1500)
+				rb, _ := json.Marshal(&r2)
+				fmt.Fprintf(os.Stderr, "case %d execution %d: %s\n", ci, i+1, rb)
+			}
 		}
-		if os.Getenv("VERIF_VERBOSE") != "" {
-			r2 := *r
-			r2.Msg = clip(r2.Msg, 1500)
-			rb, _ := json.Marshal(&r2)
-			fmt.Fprintf(os.Stderr, "execution %d: %s\n", i+1, rb)
+	}
+	for ci := range cases {
+		for i, r := range results[ci] {
+			if r.Verdict == "violation" {
+				ev.WriteReplayResult(ev.ReplayResult{File: f, Outcome: "fail", Signature: r.Sig,
+					Message: fmt.Sprintf("case %d of %d, execution %d of %d: %s", ci+1, len(cases), i+1, n, clip(r.Msg, 3000))})
+				t.Logf("replay fails (case %d, execution %d): %s", ci+1, i+1, r.Sig)
+				return
+			}
+			msgs = append(msgs, summary(r))
 		}
-		if r.Verdict == "violation" {
-			ev.WriteReplayResult(ev.ReplayResult{File: f, Outcome: "fail", Signature: r.Sig,
-				Message: fmt.Sprintf("execution %d of %d: %s", i+1, n, clip(r.Msg, 3000))})
-			t.Logf("replay fails (execution %d): %s", i+1, r.Sig)
-			return
-		}
-		msgs = append(msgs, fmt.Sprintf("%s/worst=%v/drop=%dms/conv=%dms", r.Verdict, r.MaxUs, r.DropMs, r.ConvergeMs))
 	}
 	ev.WriteReplayResult(ev.ReplayResult{File: f, Outcome: "pass", Message: strings.Join(msgs, " ")})
+}
+
+func summary(r *Result) string {
+	return fmt.Sprintf("%s/worst=%v/drop=%dms/conv=%dms", r.Verdict, r.MaxUs, r.DropMs, r.ConvergeMs)
+}
+
+// capFor is the parent's cap for one child: workload on a loaded machine
+// (incl. a wedged driver step, 90 s) + drop clause (<= 20 s) + convergence
+// bound + slack.
+func capFor(c *Case) time.Duration {
+	return convBound(c) + 30*time.Second + 120*time.Second + 60*time.Second
 }
